@@ -537,6 +537,8 @@ func TestCheck(t *testing.T) {
 		"round 2: stack items returned by Iterator.Value and pairs delivered by SeekAsync are read again after the scan is over (and after Finalize) and must still be the reference; reading one position twice gives two independent items",
 		"round 2: a scan whose range is written during the iteration (not documented as a snapshot) is judged on the untouched keys only (each once, in order, right value; the touched key at most once); the following scan is judged exactly",
 		"PutChangeSet keeps the maps' value slices by design (bulk hand-over used by Persist): not part of the reuse oracle",
+		"round 3 (late_test.go, early-action scripts): SeekAsync / dao.SeekAsync / System.Storage.Find answer for the content the scanned layer had when the call RETURNED (the layer's snapshot is taken synchronously by design: prepareSeekMemSnapshot's doc comment); writes to that layer, its Persist and the reuse of the argument slices between the return and the first receive / Next change nothing. Only writes to the scanned layer itself are judged: lower layers are snapshotted when the goroutine reaches them (a write below after the call is counted, not judged); write + Persist between call and lower scan is the open finding seek-not-atomic and is not produced here (one action per case)",
+		"round 3: Persist of a private layer that sits on another PRIVATE layer is not combined with a running scan (the flush writes the lower layer's maps unlocked while the scan goroutine may read them; private layers are documented as single-threaded)",
 	})
 }
 
